@@ -1,0 +1,23 @@
+//go:build verif
+
+package format
+
+// Contracts checked by /verif/govc (see /verif/DESIGN.md). Comment-only file.
+//
+// C05, totality of the format parsers: the other (*T).unmarshal functions of this package are
+// swept without annotations (see /verif/props.json); this one needs an invariant because the
+// configuration parsed inside the fmtp loop is dereferenced after it.
+
+//@ spec wfSMC(c *mpeg4audio.StreamMuxConfig) bool = len(c.Programs) >= 1 && (forall i :: 0 <= i && i < len(c.Programs) ==> c.Programs[i] != nil && len(c.Programs[i].Layers) >= 1) && (forall i :: 0 <= i && i < len(c.Programs) ==> forall j :: 0 <= j && j < len(c.Programs[i].Layers) ==> c.Programs[i].Layers[j] != nil && c.Programs[i].Layers[j].AudioSpecificConfig != nil)
+
+//@ func allLayersHaveSameTypeRateChannelsExtType
+//@   opt safety-tag=C05
+//@   requires c != nil && wfSMC(c)
+//@   modifies nothing
+
+//@ func (f *MPEG4AudioLATM) unmarshal
+//@   opt safety-tag=C05
+//@   requires ctx != nil && (f.StreamMuxConfig == nil || wfSMC(f.StreamMuxConfig))
+//@   modifies *
+//@   loop 1
+//@     invariant f.StreamMuxConfig != nil ==> wfSMC(f.StreamMuxConfig)
